@@ -130,14 +130,13 @@ theorem takeMsg_drop_queue (s : Irc) (hf : s.fast = []) (hq : s.queue.isEmpty = 
 
 /-! ### the echo-emulation loss -/
 
-/-- the objects that carry the `emulatedEcho` tag were all handed to the driver before -/
-def EchoInv (s : Irc) (tr : List Ev) : Prop :=
-  ∀ o ∈ s.echoed, ∃ f src out t, Ev.took f src out t ∈ tr ∧ out.oid = o
+/-- the objects that carry the `emulatedEcho` tag are objects made inside the bot (echo copies) -/
+def EchoInv (s : Irc) : Prop := ∀ o ∈ s.echoed, ∃ k, o = Oid.int k
 
-/-- a `lost` event of this result concerns an object tagged before; new tags come with a `took` -/
+/-- a `lost` event of this result concerns an object tagged before; new tags go to new internal objects -/
 def EchoOk (s : Irc) (r : Irc × List Ev) : Prop :=
   (∀ f src out t, Ev.lost f src out t ∈ r.2 → out.oid ∈ s.echoed) ∧
-  (∀ o ∈ r.1.echoed, o ∈ s.echoed ∨ ∃ f src out t, Ev.took f src out t ∈ r.2 ∧ out.oid = o)
+  (∀ o ∈ r.1.echoed, o ∈ s.echoed ∨ ∃ k, o = Oid.int k)
 
 theorem EchoOk.of_same {s s' : Irc} {evs : List Ev} (he : s'.echoed = s.echoed)
     (hl : ∀ f src out t, Ev.lost f src out t ∉ evs) : EchoOk s (s', evs) :=
@@ -147,7 +146,7 @@ theorem deliver_echo {s s1 : Irc} {m : Msg} {d : Delivery} (h : deliver s m = (s
     match d with
     | .dropped => s1.echoed = s.echoed
     | .lost o => o.oid ∈ s.echoed ∧ s1.echoed = s.echoed
-    | .out o => s1.echoed = s.echoed ∨ s1.echoed = o.oid :: s.echoed := by
+    | .out _ => s1.echoed = s.echoed ∨ ∃ k, s1.echoed = Oid.int k :: s.echoed := by
   unfold deliver at h
   split at h
   · injection h with h1 h2; subst h1 h2; rfl
@@ -156,7 +155,7 @@ theorem deliver_echo {s s1 : Irc} {m : Msg} {d : Delivery} (h : deliver s m = (s
     · split at h
       · rename_i hin
         injection h with h1 h2; subst h1 h2; exact ⟨hin, rfl⟩
-      · injection h with h1 h2; subst h1 h2; exact Or.inr rfl
+      · injection h with h1 h2; subst h1 h2; exact Or.inr ⟨_, rfl⟩
     · injection h with h1 h2; subst h1 h2; exact Or.inl rfl
 
 /-- events that are neither `lost` nor `took` -/
@@ -177,9 +176,9 @@ theorem EchoOk.cons_plain {s s0 s1 : Irc} {e : Ev} {evs : List Ev} (he : e.plain
     · subst hm; cases he
     · rw [← hs]; exact h.1 f src out t hm
   · intro o ho
-    rcases h.2 o ho with h' | ⟨f, src, out, t, hm, e'⟩
+    rcases h.2 o ho with h' | h'
     · exact Or.inl (hs ▸ h')
-    · exact Or.inr ⟨f, src, out, t, mem_cons_of_mem _ hm, e'⟩
+    · exact Or.inr h'
 
 theorem noMsg_plain (s : Irc) : ∀ e ∈ (noMsg s).2, e.plain = true := by
   intro e he
@@ -246,7 +245,7 @@ theorem pingBranch_echo (s : Irc) :
       · dsimp only
         obtain ⟨a, b⟩ := queueMsg_echo
           { s with lastPing := s.now, outstandingPing := true, nextOid := s.nextOid + 1 }
-          ⟨.int s.nextOid, ⟨[], ['P', 'I', 'N', 'G'], [natDec s.now]⟩⟩
+          ⟨.int s.nextOid, ⟨[], ['P', 'I', 'N', 'G'], [natDec s.now], []⟩⟩
         exact ⟨a, b⟩
       · exact ⟨rfl, by intro e h; cases h⟩
   · exact ⟨rfl, by intro e h; cases h⟩
@@ -264,11 +263,11 @@ theorem takeAux_echo : ∀ (fuel : Nat) (s : Irc), EchoOk s (takeAux fuel s)
         constructor
         · intro f src out t h; simp at h
         · intro x hx
-          rcases this with h | h
+          rcases this with h | ⟨k, h⟩
           · exact Or.inl (h ▸ hx)
           · rw [h] at hx
             rcases mem_cons.mp hx with hx | hx
-            · exact Or.inr ⟨true, m, o, s.now, mem_cons_self, hx.symm⟩
+            · exact Or.inr ⟨k, hx⟩
             · exact Or.inl hx
       · rename_i s1 o hd
         have := deliver_echo hd
@@ -296,11 +295,11 @@ theorem takeAux_echo : ∀ (fuel : Nat) (s : Irc), EchoOk s (takeAux fuel s)
               constructor
               · intro f src out t h; simp at h
               · intro x hx
-                rcases this with h | h
+                rcases this with h | ⟨k, h⟩
                 · exact Or.inl (h ▸ hx)
                 · rw [h] at hx
                   rcases mem_cons.mp hx with hx | hx
-                  · exact Or.inr ⟨false, m, o, s.now, mem_cons_self, hx.symm⟩
+                  · exact Or.inr ⟨k, hx⟩
                   · exact Or.inl hx
             · rename_i s1 o hd
               have := deliver_echo hd
@@ -347,20 +346,17 @@ theorem step_echo (s : Irc) (op : Op) : EchoOk s (step s op) := by
   | capEcho b => exact EchoOk.of_plain rfl (by intro e h; cases h)
   | config c => exact EchoOk.of_plain rfl (by intro e h; simp at h; subst h; rfl)
 
-/-- along a run: every tagged object was handed to the driver by an earlier `took` -/
-theorem run_echoInv : ∀ (ops : List Op) (s : Irc) (tr0 : List Ev), EchoInv s tr0 →
-    EchoInv (run s ops).1 (tr0 ++ (run s ops).2)
-  | [], s, tr0, h => by simpa [run] using h
-  | op :: ops, s, tr0, h => by
+/-- along a run the tagged objects stay internal ones -/
+theorem run_echoInv : ∀ (ops : List Op) (s : Irc), EchoInv s → EchoInv (run s ops).1
+  | [], s, h => by simpa [run] using h
+  | op :: ops, s, h => by
     unfold run
     dsimp only
-    rw [← append_assoc]
     apply run_echoInv ops
     intro o ho
-    rcases (step_echo s op).2 o ho with h' | ⟨f, src, out, t, hm, e⟩
-    · obtain ⟨f, src, out, t, hm, e⟩ := h o h'
-      exact ⟨f, src, out, t, mem_append_left _ hm, e⟩
-    · exact ⟨f, src, out, t, mem_append_right _ hm, e⟩
+    rcases (step_echo s op).2 o ho with h' | h'
+    · exact h o h'
+    · exact h'
 
 /-! ### only a configuration change emits a `config` event -/
 
